@@ -281,7 +281,7 @@ def r13_2(ctx, rr):
     nups = bitfield_updates(F, nb, atomic=False)
 
     def canon(u, body):
-        ren = param_names(body)
+        ren = param_roles(body)
         if u.get("K") is None:
             return None
         return (repr(rename_vars(u["idx_t"], ren)), repr(rename_vars(u["K"], ren)), repr(rename_vars(u["V"], ren)))
@@ -365,16 +365,18 @@ def r13_3(ctx, rr):
     Walker(F, sb, on_node=on_node2).run()
 
     def canon(t, body, pos_name):
-        return rename_vars(t, param_names(body), fields={"count": ("var", "index")})
+        # set(&self, index, value) / push_unchecked(&mut self, value)
+        return rename_vars(t, param_roles(body, pos_name), fields={"count": ("var", "index")})
     if low and high and len(swrites) >= 2:
         slow = [w for w in swrites if w[2] == "low_bits"][0]
         shigh = [w for w in swrites if w[2] == "high_bits"][0]
-        a = (canon(low[0][3][0], b, None), canon(low[0][3][1], b, None))
-        s = (canon(slow[3][0], sb, None), canon(slow[3][1], sb, None))
+        RB, RS = ["index", "value"], ["value"]
+        a = (canon(low[0][3][0], b, RB), canon(low[0][3][1], b, RB))
+        s = (canon(slow[3][0], sb, RS), canon(slow[3][1], sb, RS))
         rr.instances += 1
         rr.check(a == s, "ConcurrentBuilder::set~push_unchecked:low", "the concurrent and the sequential builder store different low parts: (%s, %s) vs (%s, %s)" % (tshow(a[0]), tshow(a[1]), tshow(s[0]), tshow(s[1])), b.span)
-        ah = canon(high[0][3][0], b, None)
-        sh = canon(shigh[3][0], sb, None)
+        ah = canon(high[0][3][0], b, RB)
+        sh = canon(shigh[3][0], sb, RS)
         rr.instances += 1
         rr.check(ah == sh, "ConcurrentBuilder::set~push_unchecked:high", "the concurrent and the sequential builder set different high-bit positions: %s vs %s" % (tshow(ah), tshow(sh)), b.span)
     else:
